@@ -157,3 +157,36 @@ class ZWCS(object):
             uy = np.where(r > 0, b / r, 0.0)
         x, y = rho * ux * R2D, rho * uy * R2D
         return x / self.cdelt1 + self.crpix1, y / self.cdelt2 + self.crpix2
+
+
+# ----------------------------------------------------------------- islands
+def bfs_islands(snr, flood, seed):
+    """8-connected groups of finite pixels with snr >= flood that own a pixel with snr > seed.
+    Pure Python flood fill. Returns (kept, rejected): lists of frozensets of (row, col)."""
+    snr = np.asarray(snr, dtype=float)
+    nr, nc = snr.shape
+    ok = [[bool(np.isfinite(snr[r, c]) and snr[r, c] >= flood) for c in range(nc)] for r in range(nr)]
+    seen = [[False] * nc for _ in range(nr)]
+    kept, rejected = [], []
+    for r in range(nr):
+        for c in range(nc):
+            if not ok[r][c] or seen[r][c]:
+                continue
+            stack = [(r, c)]
+            seen[r][c] = True
+            group = []
+            while stack:
+                pr, pc = stack.pop()
+                group.append((pr, pc))
+                for dr in (-1, 0, 1):
+                    for dc in (-1, 0, 1):
+                        qr, qc = pr + dr, pc + dc
+                        if 0 <= qr < nr and 0 <= qc < nc and ok[qr][qc] and not seen[qr][qc]:
+                            seen[qr][qc] = True
+                            stack.append((qr, qc))
+            g = frozenset(group)
+            if any(snr[p] > seed for p in group):
+                kept.append(g)
+            else:
+                rejected.append(g)
+    return kept, rejected
